@@ -14,7 +14,7 @@ def run(tier, seed):
         extra = x.EXTRA
     except ImportError:
         pass
-    return run_proxy_property("C09", tier, seed, fams, 40, 400, RULE, ASSUME, extra_runs=extra)
+    return run_proxy_property("C09", tier, seed, fams, 40, 400, RULE, ASSUME, extra_runs=extra, level="fault_enumeration")
 
 
 def replay(path):
